@@ -21,6 +21,7 @@ import tempfile
 
 ROOT = os.path.dirname(os.path.dirname(os.path.abspath(__file__)))
 SRC = "/repo/src/clikit"
+BASE = ["/repo"]  # replaced by a snapshot taken when the sweep starts: later commits to /repo do not shift the mutation points
 DESELECT = "tests/io/output_stream/test_stream_output_stream.py::test_supports_utf8_with_encoding"
 
 ALL = ["C%02d" % i for i in range(1, 21)]
@@ -150,7 +151,7 @@ def run_one(k, pt, workroot, vjobs):
     res = {"k": k, "file": pt.rel, "line": pt.lineno, "op": pt.op}
     try:
         dst = os.path.join(tmp, "repo")
-        shutil.copytree("/repo", dst, ignore=shutil.ignore_patterns(".git", "__pycache__", "*.pyc", ".pytest_cache"))
+        shutil.copytree(BASE[0], dst, ignore=shutil.ignore_patterns(".git", "__pycache__", "*.pyc", ".pytest_cache"))
         p = os.path.join(dst, "src", "clikit", pt.rel)
         data = open(p, "rb").read()
         new = data[:pt.start] + pt.new.encode("utf-8") + data[pt.end:]
@@ -208,12 +209,16 @@ def main():
             jobs = int(a.pop(0))
         elif f == "--only":
             only = a.pop(0)
+    workroot = tempfile.mkdtemp(prefix="msweep_", dir="/tmp")
+    BASE[0] = os.path.join(workroot, "base")
+    shutil.copytree("/repo", BASE[0], ignore=shutil.ignore_patterns(".git", "__pycache__", "*.pyc", ".pytest_cache"))
+    global SRC
+    SRC = os.path.join(BASE[0], "src", "clikit")
     pts = all_points(only)
     rng = random.Random(seed)
     rng.shuffle(pts)
     pts = pts[:n]
     print("mutation points sampled: %d" % len(pts))
-    workroot = tempfile.mkdtemp(prefix="msweep_", dir="/tmp")
     outp = os.path.join(ROOT, "out", "mutsweep_%d%s.jsonl" % (seed, ("_" + only.replace("/", "_")) if only else ""))
     counts = {}
     try:
